@@ -566,6 +566,7 @@ def run(ctx, proofs_ok):
         return
     apicheck.run_resp_streams(ctx, [
         {"label": "sorted-set commands over the network protocol (handlers: bounds with exclusive marks, LIMIT, option combinations) against the model", "fams": ['zs', 'zs', 'zs', 'keyspace'], "n": (2500, 8000), "count": (2, 16), "conns": 1},
+        {"label": "GEO commands mixed with sorted-set commands on the same keys (GEOADD = ZADD of the geohash score: ZSCORE / ZRANGE / ZRANK on geo keys, GEOPOS / GEOHASH / GEODIST / GEORADIUS on sorted sets with arbitrary scores) against the model", "fams": ['geo', 'geo', 'zs', 'keyspace'], "n": (2500, 8000), "count": (1, 8), "conns": 1},
     ])
     # a second oracle that owes nothing to the model: the documented Redis semantics (bin/refredis.py)
     from checks import refcheck
